@@ -55,6 +55,8 @@ var c16Statements = []string{
 	"CREATE TABLE zz (a text DEFAULT '%s', b garbage %d)",                                 // DDL understood only in part
 	"INSERT INTO t2 (id, note) SELECT id, '%s' FROM t1 WHERE id = %d",                     // INSERT .. SELECT
 	"SELECT id FROM t1 WHERE plain = '%s' ORDER BY id = %d",                               // ORDER BY expression
+	"SELECT id FROM t1 WHERE '%s' IN ('x', 'y') OR id - %d IN (1, 2, 3)",                  // literal on the left of IN
+	"SELECT id FROM t1 WHERE concat(plain, '%s') NOT IN ('a', 'b') AND id = %d",           // literal inside the left operand of NOT IN
 }
 
 // statements in the MySQL dialect (MySQL runs)
@@ -87,16 +89,18 @@ var c16MyStatements = []string{
 	"INSERT INTO t2 (id, note) SELECT id, '%s' FROM t1 WHERE id = %d",
 	"INSERT INTO t2 (id, note) VALUES (%d, '%s') ON DUPLICATE KEY UPDATE note = 'dup-%s'",
 	"REPLACE INTO t2 (id, note) VALUES (%d, '%s')",
+	"SELECT id FROM t1 WHERE '%s' IN ('x', 'y') OR id - %d IN (1, 2, 3)",
+	"SELECT id FROM t1 WHERE concat(plain, '%s') NOT IN ('a', 'b') AND id = %d",
 }
 
 func (C16) Explore(x *kernel.Explorer, seed uint64) {
 	r := kernel.NewRNG(seed, 0xc16)
 	for i := 0; i < 4 && !x.Expired(); i++ {
 		plan := &kernel.Plan{Prop: "C16", Seed: kernel.Mix(seed, uint64(i)), Swarm: map[string]int64{
-			"chunk": int64(r.Intn(4)), "level": int64(r.Intn(3)), "format": int64(r.Intn(3)), "extended": int64(r.Intn(2)), "ignoreparse": int64(r.Intn(2)), "mysql": int64(r.Intn(3) / 2), "depeof": int64(r.Intn(2)), "wyield": int64(r.Intn(2))}}
+			"chunk": int64(r.Intn(4)), "level": int64(r.Intn(3)), "format": int64(r.Intn(3)), "extended": int64(r.Intn(2)), "ignoreparse": int64(r.Intn(2)), "strictparse": int64(r.Intn(3) / 2), "mysql": int64(r.Intn(3) / 2), "depeof": int64(r.Intn(2)), "wyield": int64(r.Intn(2))}}
 		n := 2 + r.Intn(8)
 		for j := 0; j < n; j++ {
-			plan.Ops = append(plan.Ops, kernel.Op{ID: j + 1, Kind: "stmt", A: []int64{int64(r.Intn(27 * 28))}})
+			plan.Ops = append(plan.Ops, kernel.Op{ID: j + 1, Kind: "stmt", A: []int64{int64(r.Intn(29 * 30))}})
 		}
 		x.Exec(plan)
 	}
@@ -149,7 +153,7 @@ func (C16) Run(t *testing.T, plan *kernel.Plan, keepLog bool) *kernel.Result {
 			statements, dbms = c16MyStatements, "mysql"
 		}
 		pw, err := NewPgWorld(w, rng, PgWorldConfig{SchemaYAML: schemaYAML(cols), CensorYAML: censorYAML, Clients: []string{owner}, ChunkMode: int(plan.Sw("chunk")),
-			MySQL: mysql, MyDeprecateEOF: plan.Sw("depeof") == 1})
+			MySQL: mysql, MyDeprecateEOF: plan.Sw("depeof") == 1, StrictParser: plan.Sw("strictparse") == 1})
 		if err != nil {
 			w.Violate("C16", "world-builds", "pg", err.Error())
 			return
